@@ -153,6 +153,12 @@ def value_model(tier):
     looks = ["9f7804" + _st.pack(">f", x).hex() for x in (1.0, 3.14159, 0.0, -2.5)] + ["9f78047fc00000", "9f7804ffffffff"]
     looks += ["9f7908" + _st.pack(">d", x).hex() for x in (1.0, 2.718281828, -0.0)] + ["9f79087ff8000000000000"]
     looks += ["9f760101", "9f7a0400000001", "9f7b08" + "00" * 7 + "05", "9f78", "9f7803aabbcc", "9f780500000000ff", "0500", "020105", "3000", "0403616263", "4401ff", "31", "2d31", "312e35", "6e616e", "00", "ff" * 9]
+    # ... and every proper prefix of the wrapped Float / Double / Counter64 forms
+    for full in ("9f7804" + _st.pack(">f", 2.5).hex(), "9f7908" + _st.pack(">d", 2.5).hex(), "9f7b08" + "00" * 7 + "09"):
+        for k in range(1, len(full) // 2):
+            if full[: 2 * k] not in looks:
+                looks.append(full[: 2 * k])
+        looks.append(full + "00")
     for kind in ("octets", "opaque", "objdesc"):
         for hx in looks:
             vals.append(["octraw", kind, hx])
